@@ -1261,6 +1261,137 @@ fn gen_cases(item: &str, thorough: bool) -> Vec<Case> {
 // =============================================================================================
 // run
 
+// =============================================================================================
+// (viii) mapfiles as FILES: gamemaps, `#pragma mapfile`, several -m, TRUTH_MAP_PATH — through the real command line
+
+struct FsCase { name: String, files: Vec<(String, String)>, args: Vec<String>, env: Vec<(String, String)> }
+
+fn fs_cases() -> Vec<FsCase> {
+    let mut v = vec![];
+    let src = format!("{STD12_META}script main {{\n    ins_0();\n}}\n");
+    let good = "!stdmap\n!ins_names\n0 nopp\n".to_string();
+    let base = |name: &str, files: Vec<(&str, String)>, maps: &[&str]| {
+        let mut f: Vec<(String, String)> = files.into_iter().map(|(a, b)| (a.to_string(), b)).collect();
+        f.push(("in.std".into(), src.clone()));
+        let mut args: Vec<String> = vec!["trustd".into(), "compile".into(), "-g".into(), "12".into(), "in.std".into(), "-o".into(), "out.bin".into()];
+        for m in maps { args.push("-m".into()); args.push(m.to_string()); }
+        FsCase { name: name.to_string(), files: f, args, env: vec![] }
+    };
+    let gm = |entries: &str| format!("!gamemap\n!game_files\n{entries}");
+    v.push(base("plain mapfile (control)", vec![("a.stdm", good.clone())], &["a.stdm"]));
+    v.push(base("gamemap -> plain", vec![("g.stdm", gm("12 a.stdm\n")), ("a.stdm", good.clone())], &["g.stdm"]));
+    v.push(base("gamemap -> itself", vec![("self.stdm", gm("12 self.stdm\n"))], &["self.stdm"]));
+    v.push(base("gamemap -> gamemap -> plain", vec![("g1.stdm", gm("12 g2.stdm\n")), ("g2.stdm", gm("12 a.stdm\n")), ("a.stdm", good.clone())], &["g1.stdm"]));
+    v.push(base("gamemap cycle of two", vec![("ping.stdm", gm("12 pong.stdm\n")), ("pong.stdm", gm("12 ping.stdm\n"))], &["ping.stdm"]));
+    v.push(base("gamemap cycle of three", vec![("c1.stdm", gm("12 c2.stdm\n")), ("c2.stdm", gm("12 c3.stdm\n")), ("c3.stdm", gm("12 c1.stdm\n"))], &["c1.stdm"]));
+    v.push(base("gamemap without an entry for the game", vec![("g.stdm", gm("8 a.stdm\n")), ("a.stdm", good.clone())], &["g.stdm"]));
+    v.push(base("gamemap -> missing file", vec![("g.stdm", gm("12 nope.stdm\n"))], &["g.stdm"]));
+    v.push(base("gamemap -> directory", vec![("g.stdm", gm("12 sub\n")), ("sub/keep", String::new())], &["g.stdm"]));
+    v.push(base("gamemap -> ./itself through a dot path", vec![("dot.stdm", gm("12 ./dot.stdm\n"))], &["dot.stdm"]));
+    v.push(base("gamemap with the same game twice", vec![("g.stdm", gm("12 a.stdm\n12 b.stdm\n")), ("a.stdm", good.clone()), ("b.stdm", good.clone())], &["g.stdm"]));
+    v.push(base("gamemap with a bad game number", vec![("g.stdm", gm("99999999999 a.stdm\n-1 a.stdm\n")), ("a.stdm", good.clone())], &["g.stdm"]));
+    v.push(base("gamemap -> mapfile of another language", vec![("g.stdm", gm("12 a.anmm\n")), ("a.anmm", "!anmmap\n!ins_names\n0 nopp\n".into())], &["g.stdm"]));
+    v.push(base("gamemap with an empty path", vec![("g.stdm", gm("12 \n"))], &["g.stdm"]));
+    v.push(base("gamemap with extra sections", vec![("g.stdm", format!("{}!ins_names\n0 nopp\n", gm("12 a.stdm\n"))), ("a.stdm", good.clone())], &["g.stdm"]));
+    v.push(base("-m missing file", vec![], &["nope.stdm"]));
+    v.push(base("-m directory", vec![("sub/keep", String::new())], &["sub"]));
+    v.push(base("-m the source file itself", vec![], &["in.std"]));
+    v.push(base("-m empty file", vec![("e.stdm", String::new())], &["e.stdm"]));
+    v.push(base("-m binary garbage", vec![("b.stdm", "\u{0}\u{1}\u{2}!stdmap\u{0}".into())], &["b.stdm"]));
+    v.push(base("-m twice the same file", vec![("a.stdm", good.clone())], &["a.stdm", "a.stdm"]));
+    v.push(base("-m two files defining one name differently", vec![("a.stdm", good.clone()), ("b.stdm", "!stdmap\n!ins_names\n1 nopp\n".into())], &["a.stdm", "b.stdm"]));
+    // #pragma mapfile
+    for (name, target, files) in [
+        ("pragma -> plain", "a.stdm", vec![("a.stdm", good.clone())]), ("pragma -> missing", "nope.stdm", vec![]), ("pragma -> the source itself", "in2.std", vec![]),
+        ("pragma -> gamemap cycle", "ping.stdm", vec![("ping.stdm", gm("12 pong.stdm\n")), ("pong.stdm", gm("12 ping.stdm\n"))]), ("pragma -> self gamemap", "self.stdm", vec![("self.stdm", gm("12 self.stdm\n"))]),
+        ("pragma -> directory", "sub", vec![("sub/keep", String::new())]), ("pragma -> empty path", "", vec![]),
+    ] {
+        let mut f: Vec<(String, String)> = files.into_iter().map(|(a, b): (&str, String)| (a.to_string(), b)).collect();
+        f.push(("in2.std".into(), format!("#pragma mapfile \"{target}\"\n{src}")));
+        v.push(FsCase { name: name.to_string(), files: f, args: ["trustd", "compile", "-g", "12", "in2.std", "-o", "out.bin"].iter().map(|s| s.to_string()).collect(), env: vec![] });
+    }
+    // TRUTH_MAP_PATH (directories searched for any.stdm)
+    for (name, files, path) in [
+        ("TRUTH_MAP_PATH -> dir with any.stdm gamemap", vec![("maps/any.stdm", gm("12 th12.stdm\n")), ("maps/th12.stdm", good.clone())], "maps"),
+        ("TRUTH_MAP_PATH -> dir whose any.stdm names itself", vec![("maps/any.stdm", gm("12 any.stdm\n"))], "maps"),
+        ("TRUTH_MAP_PATH -> missing dir", vec![], "nodir"), ("TRUTH_MAP_PATH -> two dirs", vec![("m1/any.stdm", gm("12 x.stdm\n")), ("m1/x.stdm", good.clone()), ("m2/any.stdm", gm("12 y.stdm\n")), ("m2/y.stdm", good.clone())], "m1:m2"),
+        ("TRUTH_MAP_PATH -> a file", vec![("a.stdm", good.clone())], "a.stdm"),
+    ] {
+        let mut f: Vec<(String, String)> = files.into_iter().map(|(a, b): (&str, String)| (a.to_string(), b)).collect();
+        f.push(("in.std".into(), src.clone()));
+        v.push(FsCase { name: name.to_string(), files: f, args: ["trustd", "compile", "-g", "12", "in.std", "-o", "out.bin"].iter().map(|s| s.to_string()).collect(), env: vec![("TRUTH_MAP_PATH".into(), path.to_string())] });
+    }
+    // the same gamemap shapes on decompile (of the control's output) — appended by the runner
+    v
+}
+
+/// Runs every FsCase (compile, and decompile of a known-good binary with the same mapfile arguments) as a real CLI subprocess
+/// in its own directory with a 30 s limit.  Verdict per the property: exit status 0 or 1; 1 iff an error diagnostic was printed;
+/// no panic text; no signal / abort / timeout.
+fn run_fs_family(rep: &mut Report) {
+    let cases = fs_cases();
+    let base = drive::scratch_dir().join("c04-fs");
+    let exe = drive::exe_snapshot();
+    // a known-good binary for the decompile variants
+    let good_bin = drive::compile(tool(Kind::Std, "th12"), format!("{STD12_META}script main {{\n    ins_0();\n}}\n").as_bytes(), &CompileOpts::default()).bytes.unwrap_or_default();
+    let idx: Vec<usize> = (0..cases.len() * 2).collect();
+    let results = crate::common::par_map(&idx, Some(rep.deadline()), |_, &k| {
+        let c = &cases[k / 2];
+        let decompile = k % 2 == 1;
+        let dir = base.join(format!("case{k}"));
+        let _ = std::fs::remove_dir_all(&dir);
+        let _ = std::fs::create_dir_all(&dir);
+        for (p, content) in &c.files { let fp = dir.join(p); if let Some(parent) = fp.parent() { let _ = std::fs::create_dir_all(parent); } let _ = std::fs::write(&fp, content); }
+        let mut args = c.args.clone();
+        if decompile {
+            let _ = std::fs::write(dir.join("good.bin"), &good_bin);
+            // compile args -> decompile args: keep -m options, replace the verb / input / output
+            let maps: Vec<String> = args.iter().skip_while(|a| *a != "-m").cloned().collect();
+            args = vec!["trustd".into(), "decompile".into(), "-g".into(), "12".into(), "good.bin".into()];
+            args.extend(maps);
+            if c.args.iter().any(|a| a == "in2.std") { return None; }   // pragma cases have no decompile form
+        }
+        let mut cmd = std::process::Command::new(&exe);
+        cmd.arg("as-truth-core").args(&args).current_dir(&dir).env_remove("TRUTH_MAP_PATH").env("RUST_BACKTRACE", "0")
+            .stdout(std::process::Stdio::piped()).stderr(std::process::Stdio::piped());
+        for (k, v) in &c.env { cmd.env(k, v); }
+        let mut child = cmd.spawn().expect("spawn cli");
+        let start = Instant::now();
+        let mut timed_out = false;
+        loop {
+            match child.try_wait() { Ok(Some(_)) => break, Ok(None) => {}, Err(_) => break }
+            if start.elapsed() > Duration::from_secs(30) { let _ = child.kill(); timed_out = true; break; }
+            std::thread::sleep(Duration::from_millis(5));
+        }
+        let out = child.wait_with_output().expect("wait cli");
+        let stderr = String::from_utf8_lossy(&out.stderr).to_string();
+        let _ = std::fs::remove_dir_all(&dir);
+        Some((out.status.code(), timed_out, stderr))
+    });
+    let mut n = 0u64;
+    for (k, r) in results.into_iter().enumerate() {
+        let Some(Some((code, timed_out, stderr))) = r else { continue; };
+        let c = &cases[k / 2];
+        let verb = if k % 2 == 1 { "decompile" } else { "compile" };
+        n += 1; rep.evaluations += 1; rep.transitions += 1; rep.states += 1; rep.traces_validated += 1;
+        let has_err = stderr.lines().any(|l| l.starts_with("error") || l.starts_with("bug"));
+        let det = json!({"family": "fsmap", "case": c.name, "verb": verb, "args": c.args, "env": c.env, "files": c.files.iter().map(|(p, s)| json!({"path": p, "content": s.chars().take(300).collect::<String>()})).collect::<Vec<_>>(),
+            "exit": code, "timed_out": timed_out, "stderr": stderr.chars().take(600).collect::<String>()});
+        let key: String = c.name.chars().map(|ch| if ch.is_ascii_alphanumeric() { ch } else { '-' }).collect();
+        let class = if timed_out { rep.fail(format!("C04:fsmap:timeout:{key}"), det); "timeout" }
+            else if code.is_none() { rep.fail(format!("C04:fsmap:killed-by-signal:{key}"), det); "abort" }
+            else if stderr.contains("panicked at") { rep.fail(format!("C04:fsmap:panic:{key}"), det); "panic" }
+            else if code == Some(0) && !has_err { "ok" }
+            else if code == Some(1) && has_err { "error" }
+            else if code == Some(0) { rep.fail(format!("C04:fsmap:error-but-success:{key}"), det); "error-but-success" }
+            else if code == Some(1) { rep.fail(format!("C04:fsmap:failure-without-error:{key}"), det); "failure-without-error" }
+            else { rep.fail(format!("C04:fsmap:exit-status-{}:{key}", code.unwrap_or(-1)), det); "odd-exit-status" };
+        if class != "ok" { rep.nontrivial += 1; }
+        rep.outcome(&format!("fsmap|{verb}|{class}"));
+    }
+    rep.extra.insert("fsmap_runs".into(), json!(n));
+}
+
 pub fn run(tier: &str) -> Report {
     let thorough = tier == "thorough";
     if std::env::var(WORKER_ENV).is_ok() { worker_main(thorough); }
@@ -1374,6 +1505,7 @@ pub fn run(tier: &str) -> Report {
         }
     }
 
+    if only.is_none() || only.as_ref().map_or(false, |o| o.iter().any(|f| f == "fsmap")) { run_fs_family(&mut rep); }
     if not_run > 0 { rep.cap_hit = Some(format!("wall cap: {not_run} of {} items not run", all_items.len())); }
     rep.exhaustive = not_run == 0 && only.is_none();
     rep.bound_completed = format!("{} items ({}); families: {}", all_items.len() - not_run,
